@@ -46,7 +46,7 @@ def countLoop (n : Nat) : Nat → Nat → Nat → Nat
 def countDigitsUint (est : Nat → Nat) (n : Nat) : Nat :=
   if n = 0 then 1
   else
-    let digits := est (n.log2 + 1)
+    let digits := est (n.log2 + 1) - countDigitsEstSub
     countLoop n (n.log2 + 2) (tenToTheUint digits) digits
 
 /-- the f64 estimate, evaluated with Lean's IEEE-754 doubles (executable model only; nothing is
@@ -55,14 +55,15 @@ def estF64 (bits : Nat) : Nat :=
   (Float.floor (bits.toFloat / 3.32192809488736234787)).toUInt64.toNat
 
 /-- model of `get_rounding_term`: 1 iff the most significant digit of `num ≥ 0` is ≥ 5.
-    The loop `n, 5n, 10n, …` starting at `10^est`. -/
+    The loop `n, 5n, 10n, …` starting at `10^(est - roundingTermEstSub)` (the code lowers the f64
+    estimate by the regenerated amount, saturating). -/
 def roundingTermLoop (num : Nat) : Nat → Nat → Nat
   | 0, _ => 0
   | fuel + 1, n => if num < n then 1 else if num < n * 5 then 0 else roundingTermLoop num fuel (n * 10)
 
 def getRoundingTerm (est : Nat → Nat) (num : Nat) : Nat :=
   if num = 0 then 0
-  else roundingTermLoop num (num.log2 + 2) (tenToTheUint (est (num.log2 + 1)))
+  else roundingTermLoop num (num.log2 + 2) (tenToTheUint (est (num.log2 + 1) - roundingTermEstSub))
 
 /-- specification of `get_rounding_term` -/
 def leadingDigit (n : Nat) : Nat := n / 10 ^ (numDigits n - 1)
